@@ -266,6 +266,7 @@ MUTANTS = {
     "C12": [
         mut("unbounded-lookahead", "30-day loop has no upper bound", [(BNB, "        if days_diff > BNB_WINDOW_DAYS {\n            break;\n        }\n", "")], ["R1:"]),
         mut("reservation-any-future-date", "reservation counts all later sales", [(BNB, "        .filter(|tx| tx.date == date && tx.ticker == ticker)", "        .filter(|tx| tx.date >= date && tx.ticker == ticker)")], ["R1:"]),
+        mut("prepass-into-pooling", "whole-timeline pre-pass result handed to the pooling step", [(M, "                    self.move_buy_to_pool(tx)?;", "                    self.move_buy_to_pool(tx, &cost_offsets)?;"), (M, "    fn move_buy_to_pool(&mut self, tx: &GbpTransaction) -> Result<(), CgtError> {", "    fn move_buy_to_pool(&mut self, tx: &GbpTransaction, later: &[Decimal]) -> Result<(), CgtError> {\n        if later.iter().any(|o| *o > Decimal::ZERO) {\n            return Ok(());\n        }")], ["R2:prepass:uses"]),
         mut("offsets-into-quantity", "pre-pass offsets limit the quantity", [(BNB, "                if available_at_buy_time <= Decimal::ZERO {\n                    continue;\n                }", "                if available_at_buy_time <= cost_offsets.get(idx).copied().unwrap_or(Decimal::ZERO) {\n                    continue;\n                }")], ["R1:", "R2:"]),
     ],
     "C13": [
@@ -294,6 +295,7 @@ MUTANTS = {
         mut("unguarded-index", "day loop reads one past", [(M, "            let current_date = transactions[i].date;\n\n            // Find all transactions on this date", "            let current_date = transactions[i + 1].date;\n\n            // Find all transactions on this date")], ["R2:"]),
         mut("loop-guard-removed", "inner scan loses its bound", [(M, "            while day_end < transactions.len() && transactions[day_end].date == current_date {\n                day_end += 1;\n            }\n\n            // Add buys for the day (apply cost offsets and future reservations)", "            while transactions[day_end].date == current_date {\n                day_end += 1;\n            }\n\n            // Add buys for the day (apply cost offsets and future reservations)")], ["R2:"]),
         mut("print-before-calculate", "CLI prints a banner before calculating", [(MAIN, "            let config = cgt_core::Config::load_with_overrides()?;\n            let report = calculate(", "            println!(\"Calculating...\");\n            let config = cgt_core::Config::load_with_overrides()?;\n            let report = calculate(")], ["R4:main:fallible-after"]),
+        mut("len-test-other-container", "first file indexed under a length test on the transactions", [(MAIN, "                            let default_path = if files.len() == 1 {", "                            let default_path = if transactions.len() == 1 {")], ["R2:"]),
         mut("pdf-no-exists-test", "default PDF path overwritten", [(MAIN, "                    if is_default && output_path.exists() {", "                    if is_default && false {")], ["R4:main:pdf-overwrite-guard"]),
         mut("validator-arm-dropped", "validator ignores negative fees", [(VALID, "    if fields.fees.amount < Decimal::ZERO {", "    if fields.fees.amount < Decimal::MIN {")], ["R5:validate"]),
         mut("validator-zero-qty-ok", "validator accepts zero quantity", [(VALID, "    if fields.amount == Decimal::ZERO {", "    if fields.amount == Decimal::ONE {")], ["R5:validate"]),
@@ -388,6 +390,7 @@ _NEUTRAL_BASES = {
     "neutral-r14": ["C03", "C08", "C11", "C14", "C15"],
     "neutral-r16": ["C05", "C06", "C08", "C15", "C16", "C18", "C19", "C20"],
     "neutral-r15": ["C01", "C02", "C03", "C04", "C05", "C06", "C09", "C10", "C11", "C12", "C16"],
+    "neutral-r17": ["C13", "C14"],
 }
 for _b, _ps in _NEUTRAL_BASES.items():
     for _p, _m in refactor(_b, _ps).items():
@@ -476,5 +479,25 @@ _CROSS2 = {
     "C11": [on("neutral-r14", mut("r14+closure-no-apportion", "closure adds the whole adjustment to every lot",
                                   [(LED, "                    lot.cost_offset += adjustment * (held / total_held);", "                    lot.cost_offset += adjustment;")], ["R4:"]))],
 }
-for _p, _ms in list(_CROSS.items()) + list(_CROSS2.items()) + list(_CROSS3.items()) + list(_CROSS4.items()):
+_CROSS5 = {
+    "C15": [on("neutral-sm-f2", mut("smf2+len-test-off-by-one", "helper indexes the first file when the slice may be empty",
+                                    [(MAIN, "    if files.len() == 1 {\n        files[0].with_extension(\"pdf\")", "    if files.len() != 1 {\n        files[0].with_extension(\"pdf\")")], ["R2:"]))],
+    "C13": [on("neutral-r17", mut("r17+no-final-line", "regrouped list rule needs a line break after every line",
+                                  [(PEST, "transaction_list = { SOI ~ line ~ (NEWLINE ~ line)* ~ EOI }", "transaction_list = { SOI ~ (line ~ NEWLINE)* ~ EOI }")], ["R4:"])),
+            on("neutral-r17", mut("r17+tax-not-reserved", "TAX missing from the factored reserved-word rule",
+                                  [(PEST, "reserved_word = _{ ^\"BUY\" | ^\"SELL\" | ^\"TOTAL\" | ^\"FEES\" | ^\"TAX\" | ^\"RATIO\" }",
+                                    "reserved_word = _{ ^\"BUY\" | ^\"SELL\" | ^\"TOTAL\" | ^\"FEES\" | ^\"RATIO\" }")], ["R5:follow:TAX"])),
+            on("neutral-r17", mut("r17+or-zero-usd", "shared default helper builds zero USD",
+                                  [(PARSER, "        .unwrap_or_else(|| CurrencyAmount::new(Decimal::ZERO, Currency::GBP))", "        .unwrap_or_else(|| CurrencyAmount::new(Decimal::ZERO, Currency::USD))")], ["R6:"])),
+            on("neutral-r17", mut("r17+list-skips-first", "match_nodes list consumer drops the first transaction",
+                                  [(PARSER, "[transaction(transactions).., EOI(_)] => transactions.collect(),", "[transaction(transactions).., EOI(_)] => transactions.skip(1).collect(),")], ["R2:"])),
+            on("neutral-r17", mut("r17+fees-clause-ignored", "trade_terms ignores a written FEES clause",
+                                  [(PARSER, "[ticker(t), quantity(q), price(p), fees(f)..] => (t, q, p, or_zero_gbp(f)),", "[ticker(t), quantity(q), price(p), fees(_f)..] => (t, q, p, or_zero_gbp(std::iter::empty())),")], ["R6:"])),
+            on("neutral-r17", mut("r17+blank-line-rejected", "line no longer optional",
+                                  [(PEST, "line = _{ (transaction | COMMENT)? }", "line = _{ transaction | COMMENT }")], ["R4:"])),
+            on("neutral-r17", mut("r17+two-fees-arm", "dividend arm requires the TAX clause",
+                                  [(PARSER, "[ticker(t), total_value(tv), tax(tx)..] => {\n                (t, Operation::Dividend {\n                    total_value: tv,\n                    tax_paid: or_zero_gbp(tx),",
+                                    "[ticker(t), total_value(tv), tax(tx)] => {\n                (t, Operation::Dividend {\n                    total_value: tv,\n                    tax_paid: or_zero_gbp(std::iter::once(tx)),")], ["R1:cmd_dividend"]))],
+}
+for _p, _ms in list(_CROSS.items()) + list(_CROSS2.items()) + list(_CROSS3.items()) + list(_CROSS4.items()) + list(_CROSS5.items()):
     MUTANTS.setdefault(_p, []).extend(_ms)
